@@ -94,8 +94,10 @@ func H_field() {
 		}
 		fields = append(fields, types.NewField(token.NoPos, pkg, names[i], vType(10+i), false))
 		// struct tags in several shapes; a field is prevented exactly when the value of its wire key is "-"
-		tagKind := vConc(vInt(fmt.Sprintf("tag%d", i), 0, 6))
-		tag := []string{`wire:"-"`, `json:"x" wire:"-"`, `wire:"-" json:"x,omitempty"`, `json:"x"`, `wire:"keep"`, ``, `json:"-"`}[tagKind]
+		tagKind := vConc(vInt(fmt.Sprintf("tag%d", i), 0, 10))
+		tag := []string{`wire:"-"`, `json:"x" wire:"-"`, `wire:"-" json:"x,omitempty"`, `json:"x"`, `wire:"keep"`, ``, `json:"-"`,
+			// keys that merely end in "wire", and the text wire:"-" inside the value of another key
+			`hotwire:"-"`, `json:"x" xwire:"-"`, `doc:"use wire:\"-\" to skip"`, `wire:"-,omitempty"`}[tagKind]
 		prevented[i] = tagKind <= 2
 		tags = append(tags, tag)
 	}
@@ -124,7 +126,7 @@ func H_field() {
 	notStar := &ast.CallExpr{Args: []ast.Expr{&ast.Ident{Name: "x"}, lit}}
 	vA("C12", !allFields(notStar), "a field name is not the all-fields marker")
 	for i := 0; i < nf; i++ {
-		vA("C12", isPrevented(st.Tag(i)) == prevented[i], `exactly the fields tagged wire:"-" are prevented`)
+		vA("C12,C06", isPrevented(st.Tag(i)) == prevented[i], `exactly the fields tagged wire:"-" are prevented (any other field of a "*" struct provider needs a source)`)
 	}
 }
 
